@@ -71,23 +71,23 @@ def frequencyComponents (cs : List FComp) (wmax : Rat) : Except Err (List Rat) :
 
 /-! ### transformers.py: when is a source active at an analysed frequency -/
 
-def absQ (x : Rat) : Rat := if 0 ≤ x then x else -x
+def mfAbsQ (x : Rat) : Rat := if 0 ≤ x then x else -x
 
 /-- `np.abs(w - w_src) > w_resolution` ⇒ replaced by a short / an open circuit -/
-def gateSingle (w ws wres : Rat) : Bool := !decide (absQ (w - ws) > wres)
+def gateSingle (w ws wres : Rat) : Bool := !decide (mfAbsQ (w - ws) > wres)
 
 /-- `np.round`: round half to even -/
-def roundHalfEven (x : Rat) : Int :=
+def mfRoundHalfEven (x : Rat) : Int :=
   let f := x.floor
   let d := x - (f : Rat)
   if d < 1/2 then f else if d > 1/2 then f + 1 else if f % 2 = 0 then f else f + 1
 
 /-- `n = np.round(w/w0)` -/
-def harmonicIndex (w w0 : Rat) : Int := roundHalfEven (w / w0)
+def harmonicIndex (w w0 : Rat) : Int := mfRoundHalfEven (w / w0)
 
 /-- `delta_n = |w/w0 − n| > w_resolution/w0` ⇒ replaced by a short / an open circuit -/
 def gatePeriodic (w w0 wres : Rat) : Bool :=
-  !decide (absQ (w / w0 - (harmonicIndex w w0 : Rat)) > wres / w0)
+  !decide (mfAbsQ (w / w0 - (harmonicIndex w w0 : Rat)) > wres / w0)
 
 /-- a source as the gates see it -/
 structure Src where
